@@ -27,12 +27,15 @@ var c05Bound = map[string]c05Val{
 	"boolT":   {true, true},
 	"slice":   {[]int{1, 2}, true},
 	"map":     {map[string]any{"k": "v"}, true},
+	"jsonarr": {"[1,2]", true}, // strings that look like JSON stay strings
+	"jsonobj": {`{"k":1}`, true},
 	"zero":    {0, true},
 	"boolF":   {false, true},
 	"empty":   {"", true},
 	"nilv":    {nil, false},
 	"missing": {nil, false},
 }
+
 // props bound to an expression that is not a path into the data: literals, negation, comparison
 var c05Exprs = map[string]struct {
 	Src string
@@ -43,7 +46,7 @@ var c05Exprs = map[string]struct {
 }
 var c05ExprNames = []string{"lit0", "litfalse", "litempty", "lit7", "littrue", "litstr", "notT", "notF", "cmpF", "cmpT", "sum"}
 
-var c05BoundNames = []string{"int7", "float", "str", "boolT", "slice", "map", "zero", "boolF", "empty", "nilv", "missing"}
+var c05BoundNames = []string{"int7", "float", "str", "boolT", "slice", "map", "jsonarr", "jsonobj", "zero", "boolF", "empty", "nilv", "missing"}
 
 type c05Case struct {
 	AForm  string `json:"a"`                 // omit | static | interp | bound:<name> | vbind:<name>
